@@ -51,21 +51,11 @@ def sh(cmd, cwd=None, timeout=None, env=None, inp=None):
 # --------------------------------------------------------------------------- builds
 
 def build_harness():
-    """cargo build of the harness against /repo's working tree, hooks on."""
+    """cargo build of the harness (this /verif copy's harness crate, whose mdns-sd path
+    dependency names the repository under test), hooks on."""
     t0 = time.time()
-    env = dict(ENV)
-    if REPO != "/repo":
-        # scratch copy of the repository: patch the path dependency through a config override
-        env["CARGO_TARGET_DIR"] = os.path.join(REPO, "target-verif-harness")
-    cmd = ["cargo", "build", "--release", "--offline", "-q"]
-    if REPO != "/repo":
-        cmd += ["--config", 'patch."/repo".mdns-sd.path="%s"' % REPO]
-    rc, out = sh(cmd, cwd=HARNESS, timeout=1800, env=env)
-    if REPO != "/repo":
-        binp = os.path.join(env["CARGO_TARGET_DIR"], "release", "mdns-verif-harness")
-    else:
-        binp = HARNESS_BIN
-    return rc == 0, out, time.time() - t0, binp
+    rc, out = sh(["cargo", "build", "--release", "--offline", "-q"], cwd=HARNESS, timeout=1800)
+    return rc == 0, out, time.time() - t0, HARNESS_BIN
 
 
 def gen_params():
@@ -468,7 +458,15 @@ def main_check(mod):
     t_run = time.time() - t1
 
     disagreements = [i for i in range(len(lines)) if impl[i] != model[i] and impl[i] != "SKIP"]
-    rejected = [i for i in range(len(lines)) if not mon[i].startswith("PASS") and impl[i] != "SKIP"]
+    # a monitor verdict is PASS... or FAIL...; anything else (NOMODEL, BAD..., BADCASE) is a
+    # machinery problem, not a property violation
+    rejected = [i for i in range(len(lines)) if mon[i].startswith("FAIL") and impl[i] != "SKIP"]
+    mon_broken = [i for i in range(len(lines)) if not (mon[i].startswith("PASS") or mon[i].startswith("FAIL"))
+                  and impl[i] != "SKIP"]
+    if mon_broken and okm:
+        problems.append({"kind": "monitor", "what": "monitor could not judge %d cases" % len(mon_broken),
+                         "detail": {"case": lines[mon_broken[0]][:500], "impl": impl[mon_broken[0]][:500],
+                                    "monitor": mon[mon_broken[0]][:300]}})
 
     known = load_known()
     known_for = [k for k in known.get("findings", []) if k["property"] == pid]
@@ -508,7 +506,7 @@ def main_check(mod):
 
         def still_bad(l):
             rw, ob, mi, mo, mn = one(l)
-            if ob == "SKIP" or mn.startswith("PASS") or mn.startswith("BAD") or ob.startswith("BAD"):
+            if ob == "SKIP" or not mn.startswith("FAIL") or ob.startswith("BAD"):
                 return False
             cls = mod.known_class(l, ob, mn) if hasattr(mod, "known_class") else None
             return not (cls and any(k["id"] == cls for k in known_for))
@@ -532,7 +530,7 @@ def main_check(mod):
             xmi, _ = run_model(xl, xraw)
             xm = run_mon(xmi, xr) if okm else []
             for j in range(len(xm)):
-                if not xm[j].startswith("PASS") and xr[j] != "SKIP":
+                if xm[j].startswith("FAIL") and xr[j] != "SKIP":
                     cls = mod.known_class(xl[j], xr[j], xm[j]) if hasattr(mod, "known_class") else None
                     if cls and any(k["id"] == cls for k in known_for):
                         continue
